@@ -267,7 +267,7 @@ func recordFromMapParam(base ssa.Value, m *types.Var) bool {
 
 // isCallLifecycleFunc: function that reads or writes Topic.currentCall.
 func (c *Ctx) isCallLifecycleFunc(fn *ssa.Function) bool {
-	return c.readsField(fn, c.E().topicField("currentCall"))
+	return c.readsField(fn, c.E().topicField("currentCall")) || c.readsFieldDeep(fn, c.E().topicField("currentCall"))
 }
 
 // readsField: fn takes the address of (reads or writes) struct field f.
